@@ -628,15 +628,46 @@ def _binders(repo, rep, rule="R04.6", handlers=True, only=None):
                           if isinstance(n, ast.Assign) and
                           src(n.targets[0]).endswith(".iter") and
                           n.lineno > push_line]
-                guarded = all(any("index > 0" in src(t_) or "index" in src(t_)
-                                  for t_, v_ in L.guards_of(n, m.node))
-                              for n in inside)
+                # every other iterable is rewritten inside: the guard of
+                # the inner rewrite (on the position in the list of
+                # generators) is false for the first one only
+                guarded = bool(inside)
+                gdetail = ""
+                for n in inside:
+                    lp = getattr(n, "_parent", None)
+                    while lp is not None and not isinstance(lp, ast.For):
+                        lp = getattr(lp, "_parent", None)
+                    ivar = None
+                    if lp is not None and isinstance(lp.target, ast.Tuple) \
+                            and src(lp.iter).startswith("enumerate(") and \
+                            isinstance(lp.target.elts[0], ast.Name):
+                        ivar = lp.target.elts[0].id
+                    gs = [(t_, v_) for t_, v_ in L.guards_of(n, m.node)
+                          if isinstance(t_, ast.expr)]
+                    if ivar is None or not gs:
+                        guarded = False
+                        gdetail = "inner rewrite not guarded by the position"
+                        continue
+                    for k in range(0, 5):
+                        truth = True
+                        for t_, v_ in gs:
+                            tv = L.int_guard_truth(t_, ivar, k)
+                            if tv is None:
+                                raise AnalysisError(
+                                    "%s: guard %s not understood" % (
+                                        m.qualname, src(t_)))
+                            truth = truth and (tv == v_)
+                        if truth != (k > 0):
+                            guarded = False
+                            gdetail = "the iterable of generator %d is %s" \
+                                % (k, "rewritten twice" if truth
+                                   else "not rewritten")
                 rep.check(bool(early) and guarded, rule, m.qualname,
                           "the first iterable of a %s is rewritten in the "
                           "enclosing scope ([x for x in x] reads the "
                           "template variable x)" % b,
                           construct="first-iterable-outside:" + b,
-                          where=L.where(m))
+                          where=L.where(m), detail=gdetail)
         if b in ("Lambda", "FunctionDef") and pushes:
             # default values belong to the enclosing scope: they are visited
             # before the lambda's scope is opened (in the new scope the
